@@ -571,6 +571,63 @@ def check_validate_name(repo, rep):
     rep.floor('_validate_name scenarios evaluated', n, 400)
 
 
+def check_classifiers_are_type_tests(repo, rep):
+    """R07i: utils.is_iterable / is_sequence / is_iterator / is_mutable
+    decide whether a value found *inside the data* is walked as a nested
+    collection or left alone as an opaque leaf.  They may look at its type
+    only: probing the value (iter(obj), len(obj), obj[0], hasattr ...) runs
+    code of a host object that was never granted to the expression, and
+    makes __getitem__-only objects walkable."""
+    mod = repo.module('yaql.language.utils')
+    n = 0
+    names = set()
+    for fi in mod.functions.values():
+        if fi.parent_func is not None or fi.cls is not None or \
+                not fi.name.startswith('is_') or len(fi.params()) != 1:
+            continue
+        p = fi.params()[0]
+        if not any(isinstance(c.func, ast.Name) and
+                   c.func.id == 'isinstance' and c.args and isinstance(
+                       c.args[0], ast.Name) and c.args[0].id == p
+                   for c in model.calls_in(fi.node)):
+            continue
+        names.add(fi.name)
+    for name in sorted(names):
+        fi = mod.functions[name]
+        p = fi.params()[0]
+        n += 1
+        bad = []
+        for x in ast.walk(fi.node):
+            if not (isinstance(x, ast.Name) and x.id == p and
+                    isinstance(x.ctx, ast.Load)):
+                continue
+            par = getattr(x, '_parent', None)
+            if isinstance(par, ast.Call) and par.args and \
+                    par.args[0] is x and isinstance(par.func, ast.Name) \
+                    and (par.func.id in ('isinstance', 'type') or
+                         par.func.id in names):
+                continue
+            if isinstance(par, ast.Call) and par.args and \
+                    par.args[0] is x and isinstance(
+                        par.func, ast.Attribute) and par.func.attr in names:
+                continue
+            if isinstance(par, ast.Compare) and all(
+                    isinstance(o, (ast.Is, ast.IsNot)) for o in par.ops):
+                continue
+            bad.append(par if par is not None else x)
+        rep.ob('R07i', fi.key, not bad,
+               '%s classifies values found in the data by their type; `%s` '
+               'does something else with the value (protocol probing runs '
+               'code of a host object the expression was never granted, '
+               'and turns sequence-protocol objects into collections that '
+               'flatten / the output converter walk by calling their '
+               '__getitem__)' % (fi.name, model.norm(bad[0])[:60]
+                                 if bad else ''),
+               loc=mod.loc(bad[0] if bad else fi.node),
+               construct=model.norm(bad[0])[:100] if bad else '')
+    rep.floor('type classifiers of utils', n, 4)
+
+
 def check_yaqlized_type(repo, rep):
     """R07e, by exhaustive abstract evaluation of Yaqlized's checker over
     (object has settings?) x (the three switches) x (the three requested
@@ -1047,6 +1104,9 @@ def run(repo, rep):
              'False for objects without settings before any accept')
     rep.rule('R07f', 'CALLS-OF-DATA: values that come from expression data '
              'are called only at the listed sites')
+    rep.rule('R07i', 'CLASSIFIERS-ARE-TYPE-TESTS: utils.is_iterable / '
+             'is_sequence / is_iterator / is_mutable only apply isinstance / '
+             'type() to the value they classify')
     rep.rule('R07h', 'YAQLIZATION-GRANTS: during evaluation only '
              '_auto_yaqlize may yaqlize, and only its own `value` object')
     rep.rule('R07g', 'side doors: call() filters keyword names; property '
@@ -1125,6 +1185,7 @@ def run(repo, rep):
             rep.error('anchor vanished: owned sink %s/%s not found' % k)
     check_validate_name(repo, rep)
     check_yaqlized_type(repo, rep)
+    check_classifiers_are_type_tests(repo, rep)
     check_data_calls(repo, rep, uni)
     check_yaqlization_grants(repo, rep, uni)
     check_yaqlize_keeps_existing_policy(repo, rep)
